@@ -185,7 +185,10 @@ class Ident(object):
 
     def __init__(self, empty_seq_is_none=True, empty_bytes_is_none=True,
                  empty_wrapped_is_none=False, empty_text_is_none=False,
-                 none_obj_is_empty=False, leafless_obj_is_none=False):
+                 none_obj_is_empty=False, leafless_obj_is_none=False, empty_objseq_kept=False):
+        # an EMPTY sequence of objects must come back as an empty sequence, not as None
+        # (forms that have a marker for it, e.g. 'x=empty' in flat dicts)
+        self.empty_objseq_kept = empty_objseq_kept
         # an object none of whose members carries a leaf value is identified with None
         # (flat key/value forms cannot tell them apart)
         self.leafless_obj_is_none = leafless_obj_is_none
@@ -204,6 +207,8 @@ def value_eq(B, t, got, exp, ident=XML_IDENT, path="", exact_class=False):
     occ = t.get("occ") or {}
     if occ.get("max", 1) != 1 and t["k"] not in ("attr", "data"):
         if exp is None or (ident.empty_seq_is_none and exp == []):
+            if exp == [] and ident.empty_objseq_kept and t["k"] == "ref" and got is None:
+                return "%s: expected an empty sequence of objects, got None" % path
             if got is None or (ident.empty_seq_is_none and _is_empty_seq(got)):
                 return None
             return "%s: expected no items, got %r" % (path, got)
@@ -252,6 +257,8 @@ def value_eq(B, t, got, exp, ident=XML_IDENT, path="", exact_class=False):
                 return None
             return "%s: expected None, got %r" % (path, got)
         if got is None:
+            if exp == [] and ident.empty_objseq_kept and t["of"]["k"] == "ref":
+                return "%s: expected an empty array of objects, got None" % path
             if ident.empty_wrapped_is_none and exp == []:
                 return None
             return "%s: expected array of %d, got None" % (path, len(exp))
